@@ -177,6 +177,8 @@ pub struct SchemaGen<'a> {
     type_names: Vec<String>,
     const_ints: Vec<String>,
     uuid_n: u64,
+    /// service uuids that may be reused on purpose (invalid mode): duplicates across schemas
+    pub reuse_uuids: Vec<String>,
 }
 
 fn camel(w: &[&str]) -> String {
@@ -191,7 +193,7 @@ fn camel(w: &[&str]) -> String {
 
 impl<'a> SchemaGen<'a> {
     pub fn new(r: &'a mut Rng, cfg: GenCfg) -> Self {
-        SchemaGen { r, cfg, used_names: Vec::new(), type_names: Vec::new(), const_ints: Vec::new(), uuid_n: 0 }
+        SchemaGen { r, cfg, used_names: Vec::new(), type_names: Vec::new(), const_ints: Vec::new(), uuid_n: 0, reuse_uuids: Vec::new() }
     }
 
     fn words(&mut self, n: usize) -> Vec<&'static str> {
@@ -239,6 +241,9 @@ impl<'a> SchemaGen<'a> {
     }
 
     fn uuid(&mut self) -> String {
+        if !self.cfg.valid && !self.reuse_uuids.is_empty() && self.r.chance(1, 2) {
+            return self.r.pick(&self.reuse_uuids).clone();
+        }
         self.uuid_n += 1;
         let a = self.r.next_u64();
         let b = self.r.next_u64() ^ self.uuid_n;
@@ -537,7 +542,14 @@ impl<'a> SchemaGen<'a> {
                 8 => {
                     let pre = self.prelude(false);
                     let value = match self.r.below(4) {
-                        0 => AConstValue::Str(self.doc_text().replace('\\', "\\\\").replace('"', "\\\"").replace(['\n', '\r'], " ")),
+                        0 => {
+                            if !self.cfg.valid && self.r.chance(1, 2) {
+                                // escape codes the language does not have, next to multi-byte text
+                                AConstValue::Str(self.r.pick(&["\\é", "a\\€b", "x\\🎉", "\\n", "ok\\\\ \\q", "é\\éz"]).to_string())
+                            } else {
+                                AConstValue::Str(self.doc_text().replace('\\', "\\\\").replace('"', "\\\"").replace(['\n', '\r'], " "))
+                            }
+                        }
                         1 => AConstValue::Uuid(self.uuid()),
                         _ => {
                             let kw = *self.r.pick(&["u8", "u16", "u32", "u64", "i8", "i16", "i32", "i64"]);
